@@ -224,3 +224,24 @@ def import_hvsrpy():
     if not origin.startswith(REPO + os.sep):
         raise RuntimeError(f"hvsrpy imported from {origin}, expected under {REPO}")
     return hvsrpy
+
+
+def fresh_hvsrpy():
+    """A second, pristine copy of the hvsrpy package from the tree under test: new module objects, hence new
+    module-level state (caches, defaults, registries). Used as the "first call ever" oracle for history
+    properties; costs about 50 ms (numba kernels come from the on-disk cache)."""
+    import_hvsrpy()
+    saved = {k: v for k, v in sys.modules.items() if k == "hvsrpy" or k.startswith("hvsrpy.")}
+    for k in saved:
+        del sys.modules[k]
+    try:
+        import hvsrpy as copy
+    finally:
+        for k in list(sys.modules):
+            if k == "hvsrpy" or k.startswith("hvsrpy."):
+                del sys.modules[k]
+        sys.modules.update(saved)
+    origin = os.path.abspath(copy.__file__)
+    if not origin.startswith(REPO + os.sep):
+        raise RuntimeError(f"fresh hvsrpy imported from {origin}, expected under {REPO}")
+    return copy
